@@ -70,91 +70,116 @@ func (u *Unit) frameItems(fr *frame) ([]frameItem, bool) {
 	return items, true
 }
 
-func (u *Unit) checkFrame(st *State, fr *frame, pos token.Pos) {
+// frameGoals returns, for heap key k currently valued now, the formulas stating that k is
+// unchanged relative to the function entry outside the declared frame. covered: the whole
+// key is in the frame (nothing to show).
+func (u *Unit) frameGoals(items []frameItem, k string, now Term) (goals []Term, covered bool) {
+	was := u.heapBaseAt(u.old, k, now.Sort, 0)
+	if t, ok := u.old.heap[k]; ok {
+		was = t
+	}
+	if now.S == was.S {
+		return nil, true
+	}
+	if strings.HasPrefix(k, "F:box:") {
+		return nil, true // boxed locals and interface boxes are private allocations
+	}
+	if strings.HasPrefix(k, "$") {
+		name := k[strings.Index(k, ":")+1:]
+		for _, it := range items {
+			if it.ghost == name {
+				return nil, true
+			}
+		}
+		return []Term{Eq(now, was)}, false
+	}
+	var exemptRefs []Term
+	var windows []Value
+	for _, it := range items {
+		switch {
+		case it.all:
+			return nil, true
+		case it.prefix != "" && (k == it.prefix || strings.HasPrefix(k, it.prefix+".") || strings.HasPrefix(k, it.prefix+"[") || strings.HasPrefix(k, it.prefix+":")):
+			return nil, true
+		case it.lv != nil:
+			for _, l := range flatten(it.lv.T) {
+				if it.lv.kind == lvHeap || it.lv.kind == lvMem || it.lv.kind == lvMap || it.lv.kind == lvGlobal {
+					if u.leafKey(*it.lv, l) == k || (it.lv.kind == lvMap && k == "MD:"+it.lv.keyT) {
+						if it.lv.kind == lvGlobal {
+							return nil, true
+						}
+						exemptRefs = append(exemptRefs, it.lv.ref)
+					}
+				}
+			}
+		case it.mem != nil:
+			elem := it.mem.T.Underlying().(*types.Slice).Elem()
+			if strings.HasPrefix(k, "M:"+typeKey(elem)+":") {
+				windows = append(windows, *it.mem)
+			}
+		}
+	}
+	if strings.HasPrefix(k, "G:") {
+		return []Term{Eq(now, was)}, false
+	}
+	if !now.Sort.isArray() || now.Sort.arrIdx() != SInt {
+		return []Term{Eq(now, was)}, false
+	}
+	r := Term{"r!fr", SInt}
+	ex := []Term{Le(r, u.clk0())}
+	for _, e := range exemptRefs {
+		ex = append(ex, Ne(r, e))
+	}
+	for _, w := range windows {
+		ex = append(ex, Ne(r, w.base()))
+	}
+	goals = append(goals, Forall([]Term{r}, Imp(And(ex...), Eq(Select(now, r), Select(was, r)))))
+	for _, w := range windows {
+		j := Term{"j!fr", SInt}
+		goals = append(goals, Forall([]Term{j}, Imp(Or(Lt(j, w.off()), Ge(j, Add(w.off(), w.slen()))), Eq(Select(Select(now, w.base()), j), Select(Select(was, w.base()), j)))))
+	}
+	return goals, false
+}
+
+// checkFrameAt emits the frame obligations for every heap key changed so far.
+func (u *Unit) checkFrameAt(st *State, fr *frame, pos token.Pos, prefix string) {
 	items, active := u.frameItems(fr)
 	if !active {
 		return
 	}
-	for _, it := range items {
-		if it.all {
-			return
-		}
-	}
-	keys := map[string]bool{}
-	for k := range st.heap {
-		keys[k] = true
-	}
-	for _, k := range sortedKeys(keys) {
-		now := st.heap[k]
-		was := u.heapArr(u.old, k, now.Sort)
-		if now.S == was.S {
-			continue
-		}
-		if strings.HasPrefix(k, "F:box:") {
-			continue // boxed locals and interface boxes are private allocations
-		}
-		if strings.HasPrefix(k, "$") {
-			name := k[strings.Index(k, ":")+1:]
-			ok := false
-			for _, it := range items {
-				if it.ghost == name {
-					ok = true
-				}
-			}
-			if !ok {
-				u.oblige(st, "frame:"+k, "frame", nil, Eq(now, was), pos, "ghost state outside the declared frame is unchanged")
-			}
-			continue
-		}
-		covered := false
-		var exemptRefs []Term
-		var windows []Value
-		for _, it := range items {
-			switch {
-			case it.prefix != "" && (k == it.prefix || strings.HasPrefix(k, it.prefix+".") || strings.HasPrefix(k, it.prefix+"[") || strings.HasPrefix(k, it.prefix+":")):
-				covered = true
-			case it.lv != nil:
-				for _, l := range flatten(it.lv.T) {
-					if it.lv.kind == lvHeap || it.lv.kind == lvMem || it.lv.kind == lvMap || it.lv.kind == lvGlobal {
-						if u.leafKey(*it.lv, l) == k || (it.lv.kind == lvMap && k == "MD:"+it.lv.keyT) {
-							if it.lv.kind == lvGlobal {
-								covered = true
-							} else {
-								exemptRefs = append(exemptRefs, it.lv.ref)
-							}
-						}
-					}
-				}
-			case it.mem != nil:
-				elem := it.mem.T.Underlying().(*types.Slice).Elem()
-				if strings.HasPrefix(k, "M:"+typeKey(elem)+":") {
-					windows = append(windows, *it.mem)
-				}
-			}
-		}
+	for _, k := range sortedKeys(st.heap) {
+		goals, covered := u.frameGoals(items, k, st.heap[k])
 		if covered {
 			continue
 		}
-		if strings.HasPrefix(k, "G:") {
-			u.oblige(st, "frame:"+k, "frame", nil, Eq(now, was), pos, "package variable outside the declared frame is unchanged")
-			continue
+		for gi, g := range goals {
+			name := prefix + k
+			if gi > 0 {
+				name = fmt.Sprintf("%s/window%d", name, gi)
+			}
+			u.oblige(st, name, "frame", nil, g, pos, "state outside the declared frame is unchanged")
 		}
-		// arrays indexed by reference: unchanged except at exempt / freshly allocated references
-		r := Term{"r!fr", SInt}
-		var ex []Term
-		ex = append(ex, Le(r, u.clk0()))
-		for _, e := range exemptRefs {
-			ex = append(ex, Ne(r, e))
-		}
-		for _, w := range windows {
-			ex = append(ex, Ne(r, w.base()))
-		}
-		goal := Forall([]Term{r}, Imp(And(ex...), Eq(Select(now, r), Select(was, r))))
-		u.oblige(st, "frame:"+k, "frame", nil, goal, pos, "heap outside the declared frame is unchanged")
-		for wi, w := range windows {
-			j := Term{"j!fr", SInt}
-			g := Forall([]Term{j}, Imp(Or(Lt(j, w.off()), Ge(j, Add(w.off(), w.slen()))), Eq(Select(Select(now, w.base()), j), Select(Select(was, w.base()), j))))
-			u.oblige(st, fmt.Sprintf("frame:%s/window%d", k, wi+1), "frame", nil, g, pos, "slice backing array unchanged outside the declared window")
-		}
+	}
+}
+
+func (u *Unit) checkFrame(st *State, fr *frame, pos token.Pos) {
+	u.checkFrameAt(st, fr, pos, "frame:")
+}
+
+// frameAssume: the inductive frame invariant assumed for a key havocked at a loop head.
+func (u *Unit) frameAssume(st *State, k string, now Term) {
+	if len(u.frames) == 0 {
+		return
+	}
+	items, active := u.frameItems(u.frames[0])
+	if !active {
+		return
+	}
+	goals, covered := u.frameGoals(items, k, now)
+	if covered {
+		return
+	}
+	for _, g := range goals {
+		st.assume(g)
 	}
 }
